@@ -29,7 +29,8 @@ META = {
 
 def run(ctx, repo, tier):
     check_fold(ctx, repo, "C04")
-    voro.pairwise_matrix(ctx, repo, "C04", 4)
+    from ..rules.fold import fold_request_kwargs
+    voro.pairwise_matrix(ctx, repo, "C04", 4, extra_kwargs=fold_request_kwargs(repo))
     voro.pair_functions(ctx, repo, "C04", 4)
     voro.quaternion_distance_range(ctx, repo, "C04")
     voro.double_cover_layout(ctx, repo, "C04")
